@@ -361,7 +361,7 @@ def build_main_harness(kind="asan"):
         return common.build_harness(HARNESS_SRC, "main")
     if kind == "tsan":
         return common.build_harness(HARNESS_SRC, "tsan", cxx="clang++-14",
-                                    flags=["-std=c++17", "-O1", "-g", "-fsanitize=thread"])
+                                    flags=["-std=c++17", "-O1", "-g", "-fsanitize=thread", "-DHARNESS_NO_NEW_OVERRIDE"])
     raise ValueError(kind)
 
 
